@@ -48,84 +48,110 @@ def run(ctx, eng):
            'received total is not compared with content-length: a request '
            'with content-length 5 and END_STREAM on HEADERS (or 3 bytes '
            'then trailers) is accepted', node=fi.node)
-    # ---- receive_data
+    # ---- receive_data and _track_content_length, read through the call: the
+    # paths of receive_data with the tracking helper taken in, from the write
+    # that accumulates the payload length on.  Which side of the call makes
+    # the comparison does not matter; what is decided is the decision.
     f2 = m.func(S + 'receive_data')
+    f3 = m.func(S + '_track_content_length')
+    EXP = 'self._expected_content_length'
+    ACTK = 'self._actual_content_length'
+    LEN = 'len(data)'
+    paths = eng.interp({f3.qual}, depth=1).run(f2)
     bad = []
     n = 0
-    for p in cm.normal_paths(eng.I.run(f2)):
-        n += 1
-        tc = cm.calls_to(p, '_track_content_length')
-        if len(tc) != 1:
-            bad.append('DATA accepted without length tracking')
+    cases = []
+    roles = {}
+    for p in paths:
+        acc = [e for e in p.events if e.kind == 'write' and
+               e.attr == '_actual_content_length']
+        if p.exit in ('return', 'fall'):
+            n += 1
+            if len(acc) != 1:
+                bad.append('DATA accepted without length tracking')
+        if not acc:
             continue
-        a = tc[0].args
-        if cm.show0(a[0]) != 'len(data)':
+        op = cm.increment_operand(acc[0])
+        if op is None or cm.show0(op) != LEN:
             bad.append('tracked length is %s, expected len(data) (padding '
-                       'does not count)' % cm.show0(a[0]))
-        if len(a) < 2 or a[1] != ('p', 'end_stream'):
-            bad.append('completion flag is not end_stream')
+                       'does not count)' % (cm.show0(op) if op is not None
+                                            else cm.show0(acc[0].value)))
+        at = p.index(acc[0])
         st = cm.process_inputs(p)
         es = [ev for nm, ev, _ in st if nm == 'RECV_END_STREAM']
-        if es and p.index(tc[0]) > p.index(es[0]):
+        if es and p.index(es[0]) < at:
             bad.append('END_STREAM is fed before the length is checked')
+        lits = {}
+        for e in p.events[at:]:
+            if e.kind != 'assume':
+                continue
+            if es and p.index(e) > p.index(es[0]):
+                break
+            atom, pol = cm.literal(e.cond)
+            lits[atom] = pol
+            c = e.cond
+            neg = False
+            while c[0] == 'not':
+                neg = not neg
+                c = c[1]
+            sh = cm.show0(c)
+            k = cm.aff_key(c)
+            if sh == '(%s is None)' % EXP:
+                roles['none'] = (atom, True)
+            elif sh == 'end_stream':
+                roles['es'] = (atom, True)
+            elif k is not None and k[0] in ('>', '>=') and k[2] == 0 and \
+                    dict(k[1]) == {ACTK: 1, LEN: 1, EXP: -1} and k[0] == '>':
+                roles['over'] = (atom, pol != neg)
+            elif k is not None and k[0] in ('>', '>=') and k[2] == 0 and \
+                    dict(k[1]) == {ACTK: -1, LEN: -1, EXP: 1} and \
+                    k[0] == '>=':
+                roles['over'] = (atom, not (pol != neg))
+            elif c[0] in ('ne', 'eq') and {cm.show0(c[1]), cm.show0(c[2])} \
+                    == {EXP, '%s + %s' % (ACTK, LEN)}:
+                # polarity of the atom that means "the totals differ"
+                means_ne = (c[0] == 'ne')
+                roles['ne'] = (atom, (pol != neg) == means_ne)
+        out = 'LEN' if (p.exit == 'raise' and
+                        p.exc['names'] == {'InvalidBodyLengthError'}) \
+            else 'pass'
+        if out == 'LEN' and es:
+            bad.append('the stream machine is told END_STREAM before the '
+                       'length is refused')
+        cases.append((lits, out))
     ctx.ob('FLOW.track', f2.qual, 'payload length tracked with end flag',
            n > 0 and not bad, '; '.join(sorted(set(bad))) or
-           '_track_content_length(len(data), end_stream) before '
+           'actual += len(data) once per DATA frame, decided before '
            'RECV_END_STREAM', node=f2.node)
-    # ---- _track_content_length
-    f3 = m.func(S + '_track_content_length')
-    paths = eng.I.run(f3)
-    EXP = 'self._expected_content_length'
-    raised = set()
-    for p in paths:
-        if cm.explicit_raise(p) is not None and \
-                p.exc['names'] == {'InvalidBodyLengthError'}:
-            conds = [e.cond for e in p.events if e.kind == 'assume']
-            raised.add(tuple(cm.show0(c) for c in conds))
-    acc = [e for p in cm.normal_paths(paths) for e in p.events
-           if e.kind == 'write' and e.attr == '_actual_content_length']
-    ok_acc = bool(acc) and all(
-        cm.increment_operand(e) is not None and
-        cm.aff_is(cm.increment_operand(e), {'length': 1}) for e in acc)
-    ACT = 'self._actual_content_length + length'
-    want_over = cm.mk_aff_key('>', {'self._actual_content_length': 1,
-                                    'length': 1, EXP: -1}, 0)
-    over = under = False
-    for p in paths:
-        if cm.explicit_raise(p) is None or \
-                p.exc['names'] != {'InvalidBodyLengthError'}:
-            continue
-        keys = cm.assume_keys(p)
-        shows = [cm.show0(e.cond) for e in p.events if e.kind == 'assume']
-        if keys and keys[-1] == want_over:
-            over = True
-        if shows and 'end_stream' in shows:
-            k = keys[-1]
-            last = [e.cond for e in p.events if e.kind == 'assume'][-1]
-            if k and k[0] == '!=' and dict(k[1]) in (
-                    {'self._actual_content_length': 1, 'length': 1,
-                     EXP: -1},
-                    {'self._actual_content_length': -1, 'length': -1,
-                     EXP: 1}):
-                under = True
-            if last[0] == 'ne':
-                sides = [last[1], last[2]]
-                exp_side = [s for s in sides if cm.show0(s) == EXP]
-                act_side = [s for s in sides if cm.aff_is(
-                    s, {'self._actual_content_length': 1, 'length': 1})]
-                if exp_side and act_side:
-                    under = True
+    missing = sorted({'none', 'es', 'over', 'ne'} - set(roles))
+
+    def truth(asg, role):
+        atom, pos = roles[role]
+        return asg.get(atom) == pos
+
+    def reference(asg):
+        if missing:
+            return None
+        if truth(asg, 'none'):
+            return 'pass'
+        if truth(asg, 'over'):
+            return 'LEN'
+        if truth(asg, 'es') and truth(asg, 'ne'):
+            return 'LEN'
+        if truth(asg, 'es') and roles['ne'][0] not in asg:
+            return None
+        return 'pass'
+    mism = cm.decision_mismatches(cases, reference) if not missing else []
     ctx.ob('ARITH.length', f3.qual, 'raises iff too much, or wrong total at '
-           'the end', ok_acc and over and under,
-           'actual += length; InvalidBodyLengthError iff expected < actual '
-           'or (end_stream and expected != actual) (accumulate=%s over=%s '
-           'end=%s)' % (ok_acc, over, under), node=f3.node)
-    okn = all(any(cm.show0(e.cond) in ('(%s is None)' % EXP,)
-                  for e in p.events if e.kind == 'assume')
-              or any(e.kind == 'assume' and cm.show0(e.cond) ==
-                     'not (%s is None)' % EXP for e in p.events)
-              for p in cm.normal_paths(paths))
-    ctx.ob('ARITH.length', f3.qual, 'no content-length, no check', okn,
+           'the end', bool(cases) and not missing and not mism,
+           'InvalidBodyLengthError iff a length was declared and (expected < '
+           'actual, or end_stream and expected != actual), actual counting '
+           'this frame%s%s' % (
+               '; comparisons not found: %s' % missing if missing else '',
+               '; decides otherwise: %s' % str(mism[:2])[:200] if mism
+               else ''), node=f3.node)
+    ctx.ob('ARITH.length', f3.qual, 'no content-length, no check',
+           'none' in roles and not mism,
            'the comparison applies only when a length was declared',
            node=f3.node)
     # ---- _initialize_content_length
